@@ -58,6 +58,11 @@ func c14Decode(b []byte) string {
 
 func TestVerifC14(t *testing.T) {
 	rm := c14Metrics()
+	// what the second exporter of an Interleave configuration exports (other content, other size)
+	foreign := c14Metrics()
+	foreign.Resource = resource.NewSchemaless(attribute.String("service.name", "c14-the-other-exporter"))
+	foreign.ScopeMetrics[0].Metrics[0].Name = "c14-metric-of-the-other-exporter"
+	foreign.ScopeMetrics[0].Metrics = append(foreign.ScopeMetrics[0].Metrics, foreign.ScopeMetrics[0].Metrics[0])
 	verifc14.Run(t, verifc14.Target{
 		Name:          "otlpmetrichttp",
 		HTTP:          true,
@@ -72,13 +77,17 @@ func TestVerifC14(t *testing.T) {
 			if c.Gzip {
 				comp = GzipCompression
 			}
-			e, err := New(context.Background(), WithInsecure(), WithEndpoint("c14.invalid:4318"), WithCompression(comp),
+			host, payload := "c14.invalid:4318", rm
+			if c.Foreign {
+				host, payload = verifc14.ForeignHost, foreign
+			}
+			e, err := New(context.Background(), WithInsecure(), WithEndpoint(host), WithCompression(comp),
 				WithRetry(RetryConfig{Enabled: c.Enabled, InitialInterval: c.Initial, MaxInterval: c.MaxInterval, MaxElapsedTime: c.MaxElapsed}))
 			if err != nil {
 				panic(err)
 			}
 			e.client.(*client).httpClient.Transport = verifc14.RoundTripper()
-			return c14Exporter{e: e, rm: rm}
+			return c14Exporter{e: e, rm: payload}
 		},
 	})
 }
